@@ -10,9 +10,17 @@
    * the cursor-style reader used as documented (header first on a fresh reader; a data call gets the
      marker of the preceding header call) is TOTAL on every message: every call returns a value or
      an error value — no panic in the u16 section counters, no debug assertion, no exhausted loop,
-     no UB — and re-establishes the invariant the next call needs. *)
-From RsdnsModel Require Import Base GenReader GenTypes Cursor Names Labels Header Tracker RData Reader Script.
-From RsdnsModel.Proofs Require Import CursorSafe LabelsTotal NoUB Defined ReaderTotal.
+     no UB — and re-establishes the invariant the next call needs;
+   * RecordSet::<D>::from_msg, the driver the clients hand every received message to, returns a set
+     or an error value for EVERY byte string and each of the 17 record-data types: its two collecting
+     loops end (each iteration consumes at least 11 octets), every reader call it makes is within the
+     documented protocol, the CNAME chase ends although CNAME records may form a loop;
+   * the iterator API — MessageIterator::new, questions() and records() drained to the end — returns
+     values or an error value for EVERY byte string: the question-skipping loop, the records
+     iterator's internal loop over records of unknown type/class and the consumer's drain loop end,
+     the u16 section counters cannot overflow, the typed reads cannot panic. *)
+From RsdnsModel Require Import Base GenReader GenTypes Cursor Names Labels Header Tracker RData Reader Script RecordSet Iter.
+From RsdnsModel.Proofs Require Import CursorSafe LabelsTotal NoUB Defined ReaderTotal FromMsgTotal IterTotal.
 Open Scope N_scope.
 
 Theorem C01_name_walk_total : forall msg nk c, cwf msg c ->
@@ -100,4 +108,30 @@ Proof.
   split; [intros s Hs; apply (rd_seek_good msg); assumption|].
   split; [apply (counts_good msg); assumption|].
   intros ty mk. exact (random_access_good msg ty mk r Hi).
+Qed.
+
+(* the 17 record-data types RecordSet can be instantiated with *)
+Definition data_types : list N :=
+  [T_A; T_NS; T_MD; T_MF; T_CNAME; T_SOA; T_MB; T_MG; T_MR; T_NULL; T_WKS; T_PTR; T_HINFO; T_MINFO; T_MX; T_TXT; T_AAAA].
+
+Theorem C01_record_set_total : forall msg ty, In ty data_types -> defined (from_msg msg ty).
+Proof.
+  intros msg ty Hin. apply from_msg_defined. intro rd.
+  repeat (destruct Hin as [<-|Hin]; [vm_compute; discriminate|]). destruct Hin.
+Qed.
+
+(* iter_questions / iter_records drain the iterators: the list of items, then the error that
+   stopped the iteration (if any) *)
+Theorem C01_iterator_total : forall msg,
+  defined (iter_new msg) /\
+  forall h off, iter_new msg = Ok (h, off) ->
+    match snd (iter_questions msg h) with
+    | None => True
+    | Some r => defined r /\ forall q, r <> Ok q
+    end /\
+    defined (iter_records msg h off).
+Proof.
+  intro msg. destruct (iter_new_defined msg) as [D H]. split; [exact D|]. intros h off E.
+  destruct (H h off E) as (H1 & H2 & H3 & H4).
+  split; [apply questions_drain_defined; apply cwf_with_pos|apply iter_records_defined; assumption].
 Qed.
